@@ -1200,6 +1200,12 @@ copy of this tree so that the mutated Generated/*.lean does not disturb the shar
  M7 asyncio `frame_length >= self.max_length`       exit 1  rs-recv/asyncio/at-limit-refused, rs-deliver/*->asyncio/at-limit-not-delivered
  M8 twisted client: serializer of the reply unchecked exit 1 rs-hs/twisted/client/unsupported-serializer/session-attached (7f020000)
  M9 twisted accumulator takes one octet too few     exit 1  rs-hs/twisted/server/segmentation-dependent (+ 19 consequences)
+ R1 (after the F12 repair 77273b88) `self.abort()` re-added to asyncio supports_serializer
+                                                    exit 1  rs-hs/asyncio/server/unsupported-serializer/raises-TransportLost (7f000000, [json]);
+                                                            Generated aioServerAbortsOnUnsupported=true, `rs_refuse_clean` no longer checks
+ R2 (after the F14 repair 11645fb6) asyncio send() raises ValueError again
+                                                    exit 1  rs-send/asyncio/over-limit/ValueError-instead-of-PayloadExceededError (513 octets, peer 512);
+                                                            Generated aioSendOverLimitExc=1, `rs_limits_error_class` no longer checks
  H1 harmless: three writes joined into one, `_magic` renamed, two independent assignments of parse_handshake swapped
                                                     exit 0  no VIOLATION line, translator unaffected
 """
